@@ -430,7 +430,10 @@ def run(ctx):
         wiring.rule_wired(ctx, f"{P}.WIRING", cli, b, param, dest, opts, pol)
     ctx.info(f"{P}.WIRING", cli.site, "--include_gradp and --floor_massfracs are store_false: giving the flag turns the "
                                       "feature off (defaults on); recorded, not a finding")
-    C13.sink_rules(ctx, P, modules={CK, CR})
+    _sinks, _penv, _wk = C13.sink_rules(ctx, P, modules={CK, CR})
+    # "the conversion never writes into the checkpoint": the default output derived from the checkpoint path is a
+    # sibling of it, never the checkpoint itself (rule W2 of C13 on the converter's modules)
+    C13.default_rules(ctx, P, _penv, _wk, modules={CK, CR})
     return ("Static: abstract interpretation of the conversion worker over its 8 flag paths (state scanned with "
             "whole-FAB advance, gradp/I_R seek-addressed with their own offsets, every subset reshaped in F order, "
             "ghost strip decided by extent algebra per axis, [state ++ gradp ++ I_R] order under the flags, header "
